@@ -6,6 +6,7 @@ import (
 	"math/rand"
 	"os"
 	"path/filepath"
+	"runtime"
 	"sort"
 	"strconv"
 	"strings"
@@ -374,7 +375,8 @@ func caseConc(res *caseResult, idx int, dir string, seed int64, tier string) {
 	}
 	rowsPerRound := 6 + r.Intn(10)
 	flushEvery := 2 + r.Intn(3)
-	res.Config = fmt.Sprintf("shards=%d extraGoroutines=%d rounds=%d rowsPerRound=%d flushEvery=%d", shards, extra, rounds, rowsPerRound, flushEvery)
+	hammer := idx%4 != 3
+	res.Config = fmt.Sprintf("shards=%d extraGoroutines=%d rounds=%d rowsPerRound=%d flushEvery=%d hammer=%v", shards, extra, rounds, rowsPerRound, flushEvery, hammer)
 	o := newObs(res)
 	d, err := openDBs(filepath.Join(dir, "db"), shards)
 	if err != nil {
@@ -474,8 +476,33 @@ func caseConc(res *caseResult, idx int, dir string, seed int64, tier string) {
 				}
 			}(e)
 		}
+		// In "hammer" cases the metadata store is switched (PrepareFlush) and flushed in a tight loop while the
+		// creators run, so that a switch lands between a creator's unlocked lookup and its locked create.
+		var hammerStop atomic.Bool
+		var hwg sync.WaitGroup
+		if hammer {
+			hwg.Add(1)
+			go func() {
+				defer hwg.Done()
+				<-start
+				for !hammerStop.Load() {
+					if atomic.CompareAndSwapInt32(&metaFlushing, 0, 1) {
+						d.meta.PrepareFlush()
+						o.count("meta_prepare_flush", 1)
+						if err := d.meta.Flush(); err != nil {
+							o.fail("C09/flush-fails", "meta flush: %v", err)
+						}
+						atomic.StoreInt32(&metaFlushing, 0)
+						o.count("meta_flush", 1)
+					}
+					runtime.Gosched()
+				}
+			}()
+		}
 		close(start)
 		wg.Wait()
+		hammerStop.Store(true)
+		hwg.Wait()
 		res.Evals++
 		o.mu.Lock()
 		if o.overlapped > before {
